@@ -137,7 +137,64 @@ pub fn run(tier: Tier) -> i32 {
             }
         });
     }
+    // 4. MForest: every prediction from every start forest x every operation is itself a well-formed forest: node ids
+    //    unique, removed ids absent, and (consolidation on, no pre-existing run) no two adjacent text nodes
+    let n5 = AtomicU64::new(0);
+    {
+        use crate::histcommon::*;
+        use crate::mforest::predict;
+        let mut starts = starts();
+        starts.extend(tiny_starts());
+        for st in &starts {
+            let Some((w, f)) = crate::bfs::replay_world(st, &[]) else {
+                note(format!("start {} cannot be built", st.name));
+                continue;
+            };
+            for op in all_ops(&f, OpMenu::full()) {
+                let Some(p) = predict(&w, &f, &op) else { continue };
+                let mut all = vec![p.clone()];
+                all.extend(p.alternatives.iter().cloned());
+                for q in all {
+                    n5.fetch_add(1, Ordering::Relaxed);
+                    let mut ids = vec![];
+                    fn walk(a: &A, ids: &mut Vec<u32>, adj: &mut bool) {
+                        if a.id != 0 {
+                            ids.push(a.id);
+                        }
+                        for x in a.nss.iter().chain(a.attrs.iter()) {
+                            if x.id != 0 {
+                                ids.push(x.id);
+                            }
+                        }
+                        if a.ch.windows(2).any(|w| w[0].k == K::Text && w[1].k == K::Text) {
+                            *adj = true;
+                        }
+                        for c in &a.ch {
+                            walk(c, ids, adj);
+                        }
+                    }
+                    let mut adj = false;
+                    for t in &q.forest {
+                        walk(t, &mut ids, &mut adj);
+                    }
+                    let n = ids.len();
+                    ids.sort();
+                    ids.dedup();
+                    if ids.len() != n {
+                        note(format!("MForest: duplicate node id after {:?} on start {}", op, st.name));
+                    }
+                    if q.removed.iter().any(|r| ids.contains(r)) {
+                        note(format!("MForest: removed id still in the forest after {:?} on start {}", op, st.name));
+                    }
+                    if adj && w.consolidation && !st.is_mixed() && !st.adjacent_text {
+                        note(format!("MForest: adjacent text predicted under consolidation after {:?} on start {}", op, st.name));
+                    }
+                }
+            }
+        }
+    }
     let b = bad.lock().unwrap();
+    println!("selftest: MForest predictions checked = {}", n5.load(Ordering::Relaxed));
     println!(
         "selftest {:?}: XmlRead(XmlWrite(tree))={} XmlRead(XmlWrite(layout))={} XmlRead(Spell(doc,dev))={} span-table-entries={} disagreements={}",
         tier,
